@@ -374,6 +374,21 @@ static Verdict check_c07 (const J &plan)
 		}
 		v.probes ["clock_differential"] ++ ;
 	}
+	// "repeating the run later or in another process": the bytes may not depend on what fresh heap blocks and the unused stack held
+	// when the library was called (schedule 0 once more on a different initial memory pattern)
+	if (v.findings.empty ())
+	{	J p = c07_concrete (plan, 0, 0) ;
+		ExecOpts mo ; mo.mem_fill = 0x80 | (int) (plan.geti ("seed") & 0x3f) ;
+		Result rm = execute (p, mo) ;
+		v.absorb (rm) ;
+		std::string where ;
+		if (!stores_equal_x (rs [0].stores, rm.stores, store, where))
+		{	Finding fd ; fd.sig = make_sig_raw ("C07", "bytes.memory", v.fmt, v.route, "none", "uninitialised") ;
+			fd.detail = "same calls on different initial memory (heap blocks / unused stack filled with another byte): " + where ;
+			v.findings.push_back (fd) ;
+		}
+		v.probes ["memory_differential"] ++ ;
+	}
 	v.nontrivial = ns >= 2 && rs [0].stores.count (store) && rs [0].stores.at (store).size () > 64 ;
 	return v ;
 }
@@ -470,6 +485,21 @@ static Verdict check_c19 (const J &plan)
 		std::string store = "/sim/cwd/t" + std::to_string (t) + ".dat" ;
 		if (s.stores.count (store) && !stores_equal_x (r.stores, s.stores, store, where))
 		{	Finding fd ; fd.sig = make_sig_raw ("C19", "store", tfmt, "mixed", "none", "-") ; fd.detail = "task " + std::to_string (t) + " interleaved vs alone: " + where ; fd.task = (int) t ; v.findings.push_back (fd) ; break ; }
+	}
+	// "independent of what the library did earlier in the same process": the first script alone once more, now after everything
+	// above has run in this process, must reproduce its first solo run (transcript with data hashes, and file bytes)
+	if (v.findings.empty () && nt >= 1)
+	{	J solo = plan ; solo.erase ("sched") ;
+		size_t t = (size_t) (plan.geti ("idx") % (long long) nt) ;
+		J tl = J::arr () ; tl.push (plan.at ("tasks") [t]) ; solo ["tasks"] = tl ;
+		ExecOpts m1 ; m1.mem_fill = 0x41 ; ExecOpts m2 ; m2.mem_fill = 0x9c ;		// and on different initial memory (heap blocks, unused stack)
+		Result s1 = execute (solo, m1) ; Result s2 = execute (solo, m2) ;
+		v.absorb (s2) ;
+		std::string where, tfmt = "-" ; for (auto &op : plan.at ("tasks") [t].at ("ops").a) if (op.has ("fmt")) { tfmt = op.gets ("fmt") ; break ; }
+		std::string store = "/sim/cwd/t" + std::to_string (t) + ".dat" ;
+		if (!transcripts_equal_t (s1.transcript [0], s2.transcript [0], where) || (s1.stores.count (store) && !stores_equal_x (s1.stores, s2.stores, store, where)))
+		{	Finding fd ; fd.sig = make_sig_raw ("C19", "history", tfmt, "mixed", "none", "-") ; fd.detail = "task " + std::to_string (t) + " alone, run twice in the same process: " + where ; fd.task = (int) t ; v.findings.push_back (fd) ; }
+		v.probes ["solo_repeated_in_process"] ++ ;
 	}
 	note_current_plan (J ()) ;
 	v.nontrivial = nt >= 2 && alternations >= 2 ;
